@@ -157,7 +157,7 @@ def replay_mb(ctx, rec, stats=None):
         got = drv.run_merkleblock(net, image)
         ctx.case()
         detail = {"image": image.hex(), "n": rec["n"], "matched_set": rec["m"], "corruption": rec["cor"],
-                  "spec": {"demand": demand, "bip37": rec["core"], "fail": rec["fail"]}, "got": got}
+                  "spec": {"demand": demand, "bip37": rec["core"], "fail": rec["fail"], "matched": [x.hex() for x in matched]}, "got": got}
         cls = "%s|%s" % (net, _mb_class(rec))
         if demand == "accept":
             if not got["ok"]:
@@ -428,7 +428,8 @@ def record_traces(seed, count, nmax):
                                    _node(max(1, n - 1), _height(max(1, n - 1)), 0)))
             elif k == "flagflip":
                 b = rnd.randrange(len(bits))
-                flags[b // 8] ^= 1 << (b % 8)
+                if b // 8 < len(flags):
+                    flags[b // 8] ^= 1 << (b % 8)
             elif k == "flagbyte":
                 flags.append(rnd.choice((0, 0, 1, 255)))
             elif k == "dropflag" and flags:
@@ -567,12 +568,9 @@ def run(ctx):
         r = ctx.tlc("MC_Merkle", "MC_Merkle_mut", workers=2, expect_ok=False, count=False)
         ctx.selftest("model_rejects_root_without_odd_duplication", (not r.ok) and r.violated == "Mut_NoDupAgrees")
         # binding: a corrupted expected term must be noticed
-        v0 = len(ctx.violations), len(ctx.known_seen)
-        cp = _corrupting(ctx)
         bad = copy.deepcopy(roots[4])
         bad["t"]["l"], bad["t"]["r"] = bad["t"]["r"], bad["t"]["l"]
-        replay_root(cp, bad)
-        ctx.selftest("replay_rejects_corrupted_root_term", cp.nfail > 0)
+        _binding(ctx, "replay_rejects_corrupted_root_term", replay_root, roots[4], [bad])
 
     # 1 + 2b. BlockWire.tla lemmas, header and block cases replayed
     if _only(ctx, "block"):
@@ -598,15 +596,11 @@ def run(ctx):
         ctx.log("replayed %d header and %d block cases on %s: %d disagreements" % (nb[0], nb[1], "/".join(NETS), nb[2]))
         if nb[0] == 0 or nb[1] == 0:
             raise MachineryError("MC_BlockWire exported no cases")
-        cp = _corrupting(ctx)
-        bad = copy.deepcopy(on.keep)
-        bad["accept"] = False
-        replay_block(cp, bad)
-        n1 = cp.nfail
-        bad = copy.deepcopy(on.keep)
-        bad["id"] = {"op": "rev", "arg": bad["id"]}
-        replay_block(cp, bad)
-        ctx.selftest("replay_rejects_corrupted_block_expectation", n1 > 0 and cp.nfail > n1)
+        b1 = copy.deepcopy(on.keep)
+        b1["accept"] = False
+        b2 = copy.deepcopy(on.keep)
+        b2["id"] = {"op": "rev", "arg": b2["id"]}
+        _binding(ctx, "replay_rejects_corrupted_block_expectation", replay_block, on.keep, [b1, b2])
 
     # 1 + 2c. PartialMerkle.tla: verifier state machine, all subsets, all corruptions; replay on message.parse
     if _only(ctx, "mb"):
@@ -626,8 +620,11 @@ def run(ctx):
                     ctx.sample({"merkleblock_case": {k: rec[k] for k in ("n", "m", "cor", "demand", "core", "fail", "matched", "flags", "nhashes")}})
         cfgs = ["MC_PartialMerkle_q"] if q else ["MC_PartialMerkle_t"]
         for cfg in cfgs:
-            ctx.tlc("MC_PartialMerkle", cfg, workers=W, on_record=on, keep_records=False, timeout=3000, coverage=not q,
-                    require_actions=() if q else ("Pick", "Descend", "Ascend", "Finish", "Refused"))
+            ctx.tlc("MC_PartialMerkle", cfg, workers=W, on_record=on, keep_records=False, timeout=3000)
+        if not q:
+            # vacuity guard with action coverage on a smaller instance (coverage doubles the run time)
+            ctx.tlc("MC_PartialMerkle", "MC_PartialMerkle_cov", workers=W, coverage=True, count=False, timeout=900,
+                    require_actions=("Pick", "Descend", "Ascend", "Finish", "Refused"))
         ctx.log("replayed merkleblock cases: %s; property-silent cases vs BIP37/Core: %s" % (cnt, dict(sorted(stats.items()))))
         ctx.extra["merkleblock_cases"] = dict(cnt)
         ctx.extra["unlisted_cases_vs_bip37"] = dict(sorted(stats.items()))
@@ -639,19 +636,14 @@ def run(ctx):
             r = ctx.tlc("MC_PartialMerkle", cfg, workers=4, expect_ok=False, count=False, timeout=900)
             ctx.selftest("model_rejects_" + cfg, (not r.ok) and r.violated == inv)
         # binding: corrupted expectations must be noticed
-        cp = _corrupting(ctx)
         b1 = copy.deepcopy(keep["none"])
         b1["matched"] = b1["matched"][::-1]
-        replay_mb(cp, b1)
-        n1 = cp.nfail
-        b2 = copy.deepcopy(keep["padbit"])
-        b2["demand"] = "accept"
-        replay_mb(cp, b2)
-        n2 = cp.nfail
         b3 = copy.deepcopy(keep["none"])
         b3["demand"] = "reject"
-        replay_mb(cp, b3)
-        ctx.selftest("replay_rejects_corrupted_merkleblock_expectation", n1 > 0 and n2 > n1 and cp.nfail > n2)
+        _binding(ctx, "replay_rejects_corrupted_merkleblock_expectation", replay_mb, keep["none"], [b1, b3])
+        b2 = copy.deepcopy(keep["padbit"])
+        b2["demand"] = "accept"
+        _binding(ctx, "replay_rejects_corrupted_merkleblock_expectation_2", replay_mb, keep["padbit"], [b2])
 
     # 3. code -> spec
     if _only(ctx, "trace"):
@@ -678,24 +670,48 @@ def run(ctx):
                     {"trace": {k: v for k, v in t.items() if k != "_leaves"}, "tlc": tv.get(i)})
         ctx.extra["traces_by_demand"] = dict(sorted(dem.items()))
         ctx.log("traces: %s" % dict(sorted(dem.items())))
+        allbad = set()
         mbs = [t for t in traces if t["kind"] == "mb" and t["honest"] and t["res"]["ok"] and len(t["res"]["tx"]) >= 2]
-        ctx.sample({"trace": {k: v for k, v in mbs[0].items() if k in ("kind", "n", "flags", "res", "_m")}})
-        # binding: corrupt one logged field of accepted traces
-        good = mbs[0]
-        b1 = copy.deepcopy(good)
-        b1["res"]["tx"] = b1["res"]["tx"][:-1]
-        b2 = copy.deepcopy(good)
-        b2["res"] = {"ok": False, "exc": "ValueError"}
-        blk = [t for t in traces if t["kind"] == "block" and t["res"]["ok"]][0]
-        b3 = copy.deepcopy(blk)
-        b3["res"]["id"] = b3["res"]["id"][2:] + b3["res"]["id"][:2]
-        b4 = copy.deepcopy(blk)
-        b4["res"]["ok"] = False
-        mk = [t for t in traces if t["kind"] == "merkle"][0]
-        b5 = copy.deepcopy(mk)
-        b5["res"] = b5["res"][2:] + b5["res"][:2]
-        bad, _ = check_traces(ctx, [good, b1, b2, blk, b3, b4, mk, b5])
-        ctx.selftest("trace_rejects_corrupted_field", bad == [1, 2, 4, 5, 7])
+        blks = [t for t in traces if t["kind"] == "block" and t["res"]["ok"] and t["res"]["rt"]]
+        mks = [t for t in traces if t["kind"] == "merkle" and not t["res"].startswith("exc")]
+        if mbs:
+            ctx.sample({"trace": {k: v for k, v in mbs[0].items() if k in ("kind", "n", "flags", "res", "_m")}})
+        # binding: corrupt one logged field of conforming traces (skipped for a kind whose uncorrupted trace
+        # is itself refused, i.e. when the implementation already violates the property there)
+        batch, expect = [], []
+        if mbs:
+            b1 = copy.deepcopy(mbs[0])
+            b1["res"]["tx"] = b1["res"]["tx"][:-1]
+            b2 = copy.deepcopy(mbs[0])
+            b2["res"] = {"ok": False, "exc": "ValueError"}
+            batch.append((mbs[0], [b1, b2]))
+        if blks:
+            b3 = copy.deepcopy(blks[0])
+            b3["res"]["id"] = b3["res"]["id"][2:] + b3["res"]["id"][:2]
+            b4 = copy.deepcopy(blks[0])
+            b4["res"]["ok"] = False
+            batch.append((blks[0], [b3, b4]))
+        if mks:
+            b5 = copy.deepcopy(mks[0])
+            b5["res"] = b5["res"][2:] + b5["res"][:2]
+            batch.append((mks[0], [b5]))
+        flat = []
+        for g, bs in batch:
+            flat.append(g)
+            flat += bs
+        bad, _ = check_traces(ctx, flat) if flat else ([], None)
+        ok, pos, tested = True, 0, 0
+        for g, bs in batch:
+            if pos in bad:          # the uncorrupted trace is refused: nothing to learn from corrupting it
+                pos += 1 + len(bs)
+                continue
+            tested += 1
+            ok = ok and all((pos + 1 + j) in bad for j in range(len(bs)))
+            pos += 1 + len(bs)
+        if tested:
+            ctx.selftest("trace_rejects_corrupted_field", ok)
+        else:
+            ctx.selftests["trace_rejects_corrupted_field"] = "skipped: no conforming recorded run to corrupt"
     ctx.exhaustive = True
 
 
@@ -716,8 +732,21 @@ class _Corrupting:
         pass
 
 
-def _corrupting(ctx):
-    return _Corrupting(ctx)
+def _binding(ctx, name, fn, good, bads):
+    """binding self-test: every corrupted copy of a case the implementation passes must be reported.
+    When the uncorrupted case already fails (the implementation violates the property right there) the
+    self-test says nothing and is skipped - the violation itself is reported by the normal path."""
+    cp = _Corrupting(ctx)
+    fn(cp, good)
+    if cp.nfail:
+        ctx.selftests[name] = "skipped: the uncorrupted case already fails"
+        return
+    ok = True
+    for b in bads:
+        cp = _Corrupting(ctx)
+        fn(cp, b)
+        ok = ok and cp.nfail > 0
+    ctx.selftest(name, ok)
 
 
 def replay(ctx, obj):
@@ -727,14 +756,21 @@ def replay(ctx, obj):
     img = d.get("image")
     if isinstance(img, dict):
         img = img.get("hex")
-    if img and "corruption" in d and not img.endswith("..."):
+    if img and "corruption" in d:
+        spec = d["spec"]
+        print("spec:", spec, "corruption:", d["corruption"], "n:", d["n"], "matched set:", d["matched_set"])
         for net in NETS:
-            print(net, "message.parse('merkleblock'):", drv.run_merkleblock(net, bytes.fromhex(img)))
-        print("spec:", d.get("spec"))
-        ctx.fail(obj["key"], obj["what"], d)
-    elif img and not img.endswith("..."):
+            got = drv.run_merkleblock(net, bytes.fromhex(img))
+            print(net, "message.parse('merkleblock'):", {k: v for k, v in got.items() if k in ("ok", "exc", "msg", "tx")})
+            if (spec["demand"] == "reject" and got["ok"]) or (spec["demand"] == "accept" and (
+                    not got["ok"] or [x.hex() for x in got["tx"]] != spec["matched"] or got["repacked"] != bytes.fromhex(img))):
+                ctx.fail(obj["key"], obj["what"], d)
+    elif img and "accept" in d and not img.endswith("..."):
         for net in NETS:
-            print(net, "Block.parse:", {k: v for k, v in drv.run_block(net, bytes.fromhex(img), "parse").items() if k in ("ok", "exc", "msg", "id", "ntx")})
-        ctx.fail(obj["key"], obj["what"], d)
+            got = drv.run_block(net, bytes.fromhex(img), "parse")
+            print(net, "Block.parse:", {k: v for k, v in got.items() if k in ("ok", "exc", "msg", "id", "ntx")})
+            if got["ok"] != d["accept"] or (got["ok"] and got["as_bin"] != bytes.fromhex(img)):
+                ctx.fail(obj["key"], obj["what"], d)
     else:
         print(json.dumps(d, indent=1)[:4000])
+        print("(no single-case replayer for this kind of record; the stored detail above is the failing case)")
